@@ -83,6 +83,145 @@ func (c *Ctx) dispatchTable(fn *ssa.Function, ifaceName string) ([]dispatchCase,
 	return nil, nil
 }
 
+// mapDispatchTable reads the relation constant -> allocated type from a constructor table: a package-level
+// map from the type code to a function returning a freshly allocated implementer, filled once (map literal or
+// assignments in init with constant keys), never written anywhere else, and consulted by fn with the
+// looked-up constructor called on the found arm.
+func (c *Ctx) mapDispatchTable(fn *ssa.Function, ifaceName string) []dispatchCase {
+	for _, b := range fn.Blocks {
+		for _, ins := range b.Instrs {
+			lk, ok := ins.(*ssa.Lookup)
+			if !ok {
+				continue
+			}
+			ld, ok := lk.X.(*ssa.UnOp)
+			if !ok || ld.Op != token.MUL {
+				continue
+			}
+			g, ok := ld.X.(*ssa.Global)
+			if !ok {
+				continue
+			}
+			mt, ok := g.Type().(*types.Pointer).Elem().Underlying().(*types.Map)
+			if !ok {
+				continue
+			}
+			sig, ok := mt.Elem().Underlying().(*types.Signature)
+			if !ok || sig.Params().Len() != 0 || sig.Results().Len() != 1 {
+				continue
+			}
+			if nt, ok := sig.Results().At(0).Type().(*types.Named); !ok || nt.Obj().Name() != ifaceName {
+				continue
+			}
+			// the looked-up function is what gets called
+			called := false
+			var fv ssa.Value = lk
+			if lk.CommaOk {
+				fv = nil
+				for _, u := range *lk.Referrers() {
+					if ex, ok := u.(*ssa.Extract); ok && ex.Index == 0 {
+						fv = ex
+					}
+				}
+			}
+			if fv != nil {
+				for _, u := range *fv.Referrers() {
+					if call, ok := u.(*ssa.Call); ok && call.Call.Value == fv {
+						called = true
+					}
+				}
+			}
+			if !called {
+				continue
+			}
+			// every write of the table: one store of a map built in place, or updates of the variable's map, all in init
+			var cases []dispatchCase
+			okAll := true
+			literal := map[ssa.Value]bool{}
+			for _, f2 := range c.ModFuncs {
+				for _, b2 := range f2.Blocks {
+					for _, in2 := range b2.Instrs {
+						if st, ok := in2.(*ssa.Store); ok && st.Addr == ssa.Value(g) {
+							mm, isMake := st.Val.(*ssa.MakeMap)
+							if !isMake || !strings.HasPrefix(f2.Name(), "init") {
+								okAll = false
+							}
+							literal[mm] = true
+						}
+					}
+				}
+			}
+			for _, f2 := range c.ModFuncs {
+				for _, b2 := range f2.Blocks {
+					for _, in2 := range b2.Instrs {
+						switch x := in2.(type) {
+						case *ssa.MapUpdate:
+							onTable := literal[x.Map]
+							if u, ok := x.Map.(*ssa.UnOp); ok && u.X == ssa.Value(g) {
+								onTable = true
+							}
+							if !onTable {
+								continue
+							}
+							k, isK := x.Key.(*ssa.Const)
+							T := constructedType(x.Value)
+							if !strings.HasPrefix(f2.Name(), "init") || !isK || k.Value == nil || T == nil {
+								okAll = false
+								continue
+							}
+							cases = append(cases, dispatchCase{K: k.Value, T: T, Tag: lk.Index})
+						case *ssa.Call:
+							if bi, ok := x.Call.Value.(*ssa.Builtin); ok && (bi.Name() == "delete" || bi.Name() == "clear") {
+								if u, ok := x.Call.Args[0].(*ssa.UnOp); ok && u.X == ssa.Value(g) {
+									okAll = false
+								}
+							}
+						}
+					}
+				}
+			}
+			if okAll && len(cases) > 0 {
+				return cases
+			}
+		}
+	}
+	return nil
+}
+
+// constructedType: v is a function (closure without captured variables) every return of which hands back a
+// freshly allocated value wrapped into the interface; the allocated type.
+func constructedType(v ssa.Value) types.Type {
+	if mc, ok := v.(*ssa.MakeClosure); ok && len(mc.Bindings) == 0 {
+		v = mc.Fn
+	}
+	fn, ok := v.(*ssa.Function)
+	if !ok || fn.Blocks == nil {
+		return nil
+	}
+	var T types.Type
+	for _, b := range fn.Blocks {
+		ret, ok := b.Instrs[len(b.Instrs)-1].(*ssa.Return)
+		if !ok {
+			continue
+		}
+		if len(ret.Results) != 1 {
+			return nil
+		}
+		mi, ok := ret.Results[0].(*ssa.MakeInterface)
+		if !ok {
+			return nil
+		}
+		if _, isAlloc := mi.X.(*ssa.Alloc); !isAlloc {
+			return nil
+		}
+		if T != nil && !types.Identical(T, mi.X.Type()) {
+			return nil
+		}
+		T = mi.X.Type()
+	}
+	return T
+}
+
 // bijectionRule: the dispatch relation and the Type() methods are inverse bijections over all implementers.
 func (c *Ctx) bijectionRule(r *Report, rule string, fn *ssa.Function, rel, ifaceName, tagMethod string, floor int) ([]dispatchCase, bool) {
 	r.Rule(rule, "the type switch of the decoder and the "+tagMethod+"() methods of all "+ifaceName+" implementers are inverse bijections (constant <-> allocated type)", floor)
@@ -92,6 +231,9 @@ func (c *Ctx) bijectionRule(r *Report, rule string, fn *ssa.Function, rel, iface
 		return nil, false
 	}
 	cases, _ := c.dispatchTable(fn, ifaceName)
+	if cases == nil {
+		cases = c.mapDispatchTable(fn, ifaceName)
+	}
 	if cases == nil {
 		r.undecided(rule, c.FuncName(fn)+": dispatch", c.Pos(fn.Pos()), "cannot read a constant -> type dispatch table (a φ of freshly allocated implementers selected by == tests) from the decoder")
 		return nil, false
@@ -402,6 +544,10 @@ func RunC13(c *Ctx, r *Report) {
 	r.Func(c.FuncName(fn))
 	cases, _ := c.bijectionRule(r, prefix+"dispatch-bijection", fn, "message", "IKEPayload", "Type", 16)
 	if cases == nil {
+		return
+	}
+	if cases[0].Test == nil {
+		r.undecided(prefix+"default-arm", "dispatch", c.Pos(fn.Pos()), "the dispatch is a lookup in a constructor table, not a sequence of tests on the type code; the skip rules are written for the latter")
 		return
 	}
 	// the loop: header φ-nodes
